@@ -97,12 +97,28 @@ macro_rules! field_probe {
                         cx.eq("serialize_with_flags(8-bit flags) length", &d, v.len(), (bits + 8 + 7) / 8);
                         cx.eq("8-bit flags: value bytes untouched", &d, v[..$nb].to_vec(), le(a).to_vec());
                         cx.eq("8-bit flags: flag byte appended", &d, v[$nb], fb);
+                        match <$T>::deserialize_with_flags::<_, F8>(&v[..]) { Ok((x, f2)) => { cx.eq("8-bit flags round trip value", &d, to(&x), a.clone()); cx.eq("8-bit flags round trip flag", &d, f2, F8(fb)); } Err(_) => cx.cex("deserialize_with_flags(8-bit flags) rejects its own output", d(), "Err".into(), "Ok".into()) }
                     }
+                    // every width 0..=8, flags in the high bits of the byte that carries them
+                    macro_rules! width { ($W:expr, $Name:ident) => {{
+                        #[derive(Clone, Copy, PartialEq, Eq, Debug, Default)]
+                        struct $Name(u8);
+                        impl Flags for $Name { const BIT_SIZE: usize = $W; fn u8_bitmask(&self) -> u8 { if $W == 0 { 0 } else { self.0 << (8 - $W) } } fn from_u8(v: u8) -> Option<Self> { Some($Name(if $W == 0 { 0 } else { v >> (8 - $W) })) } }
+                        for fv in [0u8, 1, ((1u16 << $W) - 1) as u8] {
+                            if $W == 0 && fv != 0 { continue; }
+                            let mut v = Vec::new();
+                            of(a).serialize_with_flags(&mut v, $Name(fv)).unwrap();
+                            cx.eq("serialize_with_flags(width W) length", &d, v.len(), (bits + $W + 7) / 8);
+                            match <$T>::deserialize_with_flags::<_, $Name>(&v[..]) { Ok((x, f2)) => { cx.eq("width-W flags round trip value", &d, to(&x), a.clone()); cx.eq("width-W flags round trip flag", &d, f2, $Name(fv)); } Err(_) => cx.cex("deserialize_with_flags(width W) rejects its own output", format!("{} W = {}", d(), $W), "Err".into(), "Ok".into()) }
+                        }
+                    }}}
+                    width!(0, W0); width!(1, W1); width!(2, W2); width!(3, W3); width!(4, W4); width!(5, W5); width!(6, W6); width!(7, W7); width!(8, W8);
                     #[derive(Clone, Copy, PartialEq, Eq, Debug, Default)]
                     struct F9;
                     impl Flags for F9 { const BIT_SIZE: usize = 9; fn u8_bitmask(&self) -> u8 { 0 } fn from_u8(_v: u8) -> Option<Self> { Some(F9) } }
                     let mut v = Vec::new();
                     cx.eq("flags wider than a byte are refused", &d, of(a).serialize_with_flags(&mut v, F9).is_err(), true);
+                    cx.eq("flags wider than a byte are refused (deserialize)", &d, <$T>::deserialize_with_flags::<_, F9>(&[0u8; 64][..]).is_err(), true);
                 }
                 // decimal strings and BigUint
                     let back: N = of(a).into();
